@@ -217,6 +217,7 @@ FACTORS = [
     ("clustering", [False, True]),
     ("vv", [None, 0.5, 0.05]),
     ("eval", ["scalar", "vec", "blobs"]),
+    ("blob_dtype", [None, "int64", "float32"]),  # type of the scalar blob a likelihood returns next to logL (only with eval=blobs)
     ("target", ["gauss", "bimodal", "weak"]),
 ]
 
